@@ -22,7 +22,7 @@ from dask.core import flatten
 from dask.core import get as simple_get
 from dask.system import CPU_COUNT
 from dask.typing import Key, SchedulerGetCallable
-from dask.utils import is_namedtuple_instance, key_split, shorten_traceback
+from dask.utils import apply, is_namedtuple_instance, key_split, shorten_traceback
 
 if TYPE_CHECKING:
     from dask._expr import Expr
@@ -571,10 +571,21 @@ def unpack_collections(*args, traverse=True):
                     tok, typ, Dict({_unpack(k): _unpack(v) for k, v in expr.items()})
                 )
             elif dataclasses.is_dataclass(expr) and not isinstance(expr, type):
+                # The fields are passed by name: keyword-only fields cannot be
+                # passed by position (fields that are no parameters of __init__
+                # are left to the dataclass itself)
                 tsk = Task(
                     tok,
+                    apply,
                     typ,
-                    *[_unpack(getattr(expr, f.name)) for f in dataclasses.fields(expr)],
+                    (),
+                    Dict(
+                        {
+                            f.name: _unpack(getattr(expr, f.name))
+                            for f in dataclasses.fields(expr)
+                            if f.init
+                        }
+                    ),
                 )
             elif is_namedtuple_instance(expr):
                 tsk = Task(tok, typ, *[_unpack(i) for i in expr])
